@@ -341,6 +341,21 @@ func genCase(t *rapid.T, o genOpts) *c16Case {
 	// ---- scripted failure (only where the first request is expected to try the apply)
 	if (scenario == "single" || scenario == "seq-stale") && cs.Reqs[0].Allow && cs.Reqs[0].HashMode == "fresh" && kind != "none" && lab.Chance(t, "fault", 60) {
 		fk := []string{"set", "set", "commit", "src-open", "src-open", "proc-open", "proc-open", "stop-flush", "stop-flush"}[lab.Uniform(t, "faultkind", 9)]
+		if len(bumped) > 0 && lab.Chance(t, "preferprocopen", 40) {
+			fk = "proc-open"
+		}
+		if fk == "stop-flush" && lc.Engine == "v1" && o.Known != nil && o.Known(keyFlushSwallowed("v1")) {
+			// known defect D3: the failed flush is swallowed by the stop
+			if o.Exclude != nil {
+				o.Exclude(keyFlushSwallowed("v1"))
+			}
+			fk = "set"
+		}
+		if fk == "stop-flush" && lc.Engine == "v2" {
+			// arch-v2 answers a failed flush during StopAndWait with its documented 30 s timeout
+			// (no violation, see NOTES.md); too slow for a campaign
+			fk = "set"
+		}
 		if fk == "proc-open" && len(bumped) == 0 {
 			fk = "src-open"
 		}
